@@ -197,5 +197,34 @@ def check_tight(case):
     return res
 
 
-LEGS = [Leg('tight-paren', check=check_tight, strategy=lambda tier: tight_paren_cases(), examples={'quick': 300, 'thorough': 3000}, hazard_leg=True),
+LEADERS = ['SELECT', 'select', 'Insert', 'UPDATE', 'delete', 'CREATE', 'drop', 'ALTER', 'truncate', 'MERGE', 'create or replace', 'WITH a AS (SELECT 1) select',
+           'with recursive x(n) as (select 1), y as (select 2) Update']
+# followers that are separate tokens by the lexer's documented rules ('$1' would continue the word, '.5' makes it a
+# qualifier, '::int' is a cast of the word itself: those are other statements, not "the keyword followed by something")
+FOLLOWERS = ['[a] from t', '[a]', '*from t', '*', '"x" from t', "'s'", '-1', '+1', '@v', ':p', '/*c*/ x', '--c\nx', ';', '`q`', '%s', '?', ',a', '\tx', '\nx', '']
+
+
+def tight_follow_enum(tier):
+    for a in LEADERS:
+        for b in FOLLOWERS:
+            for pre in ('', '/* c */ ', '-- c\n  '):
+                yield {'text': pre + a + b, 'expected': a.split()[-1].upper() if not a.lower().startswith('create or') else 'CREATE OR REPLACE', 'follower': b}
+
+
+def check_tight_follow(case):
+    res = Result(key=case['text'], nontrivial=True)
+    try:
+        got = sqlparse.parse(case['text'])[0].get_type()
+    except Exception as e:
+        res.failures.append(exc_failure('raises', e))
+        return res
+    if got != case['expected']:
+        res.fail('type', 'tight-follow:' + repr(case['follower'][:1]), 'get_type() of %r is %r, expected %r (the answer must ignore what follows the leading keyword)' % (case['text'], got, case['expected']))
+    res.labels = ['tight-follow']
+    res.sample = {'text': case['text'], 'expected': case['expected']}
+    return res
+
+
+LEGS = [Leg('tight-follow', check=check_tight_follow, enumerate=tight_follow_enum, exhaustive=True, max_shards=4),
+        Leg('tight-paren', check=check_tight, strategy=lambda tier: tight_paren_cases(), examples={'quick': 300, 'thorough': 3000}, hazard_leg=True),
         Leg('main', check=check, strategy=lambda tier: cases(False), examples={'quick': 8000, 'thorough': 200000})]
